@@ -3,6 +3,9 @@ from . import serial, bytesacct
 
 
 def run(ctx):
+    from . import pyrules
+    pyrules.rule_undefined_names(ctx, 'R18.11')     # the file constructors can be called
+    pyrules.rule_keyword_constructor(ctx, 'R05.13')  # Simulation(filename=...) reads the file
     serial.rule_zeroed_particle_arrays(ctx)     # R05.12: persisted particle arrays contain no bytes nobody computed
     from . import c06 as _c06
     _c06.rule_empty_delta(ctx)     # R06.10: a state equal to the first snapshot is still written
